@@ -191,6 +191,7 @@ theorem C07_returned_ignores_middleware (c : Case) (e : Err) (h : c.raise = .ret
 def preCommitted : Pre → Bool
   | .nothing => false
   | .jsonBad _ => false
+  | .commitAborted _ => false
   | _ => true
 
 theorem applyPre_committed (p : Pre) : (applyPre p).committed = preCommitted p := by
@@ -601,6 +602,15 @@ theorem C07_serveHTTP_hands_over_once (c : Case) (e : Err) (he : Reported c e)
           · simp [climbCount_returning_none, countAtEnd]
           · simp [ret ls e hls, countAtEnd]
 
+/-- **C07_panic_inside_commit** — a panic raised inside the commit step of the handler's own
+    response write (panicking before-hook, status code the writer refuses) under a Recover that
+    keeps the error is answered exactly like the same panic raised before the handler touched
+    the response: one response, 500 + generic message for a non-HTTP value. -/
+theorem C07_panic_inside_commit (c : Case) (k : Nat) (hpre : c.pre = .commitAborted k) :
+    serve c = serve { c with pre := .nothing } := by
+  rw [serve_eq, serve_eq, hpre]
+  rfl
+
 /-- **C07_requests_independent** — in a sequence of requests through one Echo every request
     gets the response it would get alone, whatever failed before it (errors, recovered panics,
     crashes).  In the model this holds by construction (`serveAll` is a `map`: the model has no
@@ -693,6 +703,9 @@ example : handOvers ⟨false, false, [.callsError true, .callsError true], .noth
     handOvers ⟨false, false, chainR, .nothing, .panicked (.str 1)⟩ = 1 ∧
     handOvers ⟨false, false, [.recover ⟨false, false, .swallow⟩], .nothing, .panicked (.str 1)⟩ = 0 := by
   decide
+/-- `c.NoContent(0)` on a writer that refuses the code, under Recover(): 500 + generic JSON -/
+example : serve ⟨false, false, chainR, .commitAborted 0, .panicked (.str 3)⟩
+    = .response ⟨[500], [.message (.statusText 500) none], true⟩ := by decide
 /-- the hypotheses of `C07_recovered` / `C07_panic_value_generic` are met -/
 example : firstCatcher (chainA.reverse) = some ⟨false, true, .unset⟩ ∧
     keepsError (LogFn.unset) = true := by decide
